@@ -419,13 +419,18 @@ fn download_to_file(path: &Path, url: &str, timeout: Duration) -> Result<File> {
     }
 
     // A connection that is cut short without a Content-Length still
-    // counts as a success for curl, and a captive portal answers 200 with
-    // a web page. Neither may replace the previous file.
+    // counts as a success for curl, a captive portal answers 200 with a
+    // web page, and a rate limited API with a JSON error message. None
+    // of them may replace the previous file: only what the loader can
+    // read as currency definitions does.
     temp_file.as_file_mut().seek(SeekFrom::Start(0))?;
-    serde_json::from_reader::<_, serde_json::Value>(std::io::BufReader::new(
-        temp_file.as_file_mut(),
-    ))
-    .wrap_err_with(|| format!("{} did not return complete JSON", url))?;
+    let entries = serde_json::from_reader::<_, Vec<rink_core::ast::DefEntry>>(
+        std::io::BufReader::new(temp_file.as_file_mut()),
+    )
+    .wrap_err_with(|| format!("{} did not return currency definitions", url))?;
+    if entries.is_empty() {
+        return Err(eyre!("{} returned an empty list of definitions", url));
+    }
 
     temp_file.as_file_mut().sync_all()?;
     temp_file.as_file_mut().seek(SeekFrom::Start(0))?;
